@@ -493,6 +493,10 @@ def check(ctx, rep):
 
     # SAST-driven codemods must not be skipped wholesale because no *find-and-fix* path is selected (default excludes do not apply to them)
     rule_exec_order(ctx, rep)
+    from .c09 import rule_runwide_state
+
+    # a selected, fixable file must be processed by every selected codemod: nothing one codemod recorded (its failed files) is read while another runs
+    rule_runwide_state(ctx, rep)
     rep.not_covered += [
         "which paths match which glob (fnmatch semantics over trees x patterns)",
         "liveness 'every selected file with a fixable construct is fixed' beyond the lost-update rule evaluated under C18",
